@@ -67,6 +67,9 @@ Borrowing == { Struct(e, -1, "named", <<F(0, FALSE, -1, "u8"), F(1, o, t, bty)>>
 EnumsF == { Enum(e, et, FALSE, <<Variant(0, ve, ut, "unit", <<>>), Variant(1, ve, vt, "tuple", <<F(0, o, ft, "u8"), F(1, TRUE, -1, "str")>>),
                                  Variant(5, e, -1, "named", <<F(1, FALSE, -1, "u8"), F(3, o, -1, "u8")>>)>>) :
               e \in Encs, ve \in Encs, et \in {-1, 7}, vt \in {-1, 7}, ut \in {-1, 7}, o \in BOOLEAN, ft \in {-1, 7} }
+\* tuple variants whose fields have the same type (declaration order is shuffled by the generator: binding a field to the wrong position still compiles)
+EnumsSame == { Enum(e, -1, FALSE, <<Variant(0, e, -1, "unit", <<>>), Variant(1, ve, -1, "tuple", <<F(0, FALSE, -1, "u8"), F(2, o, -1, "u8"), F(3, TRUE, -1, "u8")>>),
+                                    Variant(2, ve, -1, "tuple", <<F(0, FALSE, -1, "str"), F(1, FALSE, -1, "str")>>)>>) : e \in Encs, ve \in Encs, o \in BOOLEAN }
 EnumsIO == { Enum("array", et, TRUE, <<Variant(0, "array", -1, "unit", <<>>), Variant(3, "array", -1, "unit", <<>>), Variant(24, "array", -1, "unit", <<>>)>>) : et \in {-1} }      \* (the macro rejects a tag on an index_only enum)
 EnumsQ == { S \in EnumsF : (S.tag = 7 => S.variants[2].tag = -1) /\ (S.variants[2].fields[1].tag = 7 => S.variants[2].tag = -1 /\ S.tag = -1)
                            /\ (S.variants[1].tag = 7 => S.tag = -1 /\ S.variants[2].tag = -1 /\ S.variants[2].fields[1].tag = -1) } \cup EnumsIO
@@ -74,8 +77,8 @@ EnumsQ == { S \in EnumsF : (S.tag = 7 => S.variants[2].tag = -1) /\ (S.variants[
 Big(e) == Struct(e, -1, "named", [i \in 1..25 |-> F(i - 1, TRUE, -1, "u8")])
 BigVals == { [i \in 1..25 |-> IF i \in s THEN FV(TRUE, 7, <<>>, <<>>) ELSE None] : s \in {{}, {1}, {24}, {25}, {1, 25}, 1..23, 1..24, 1..25, 2..25} }
 
-Family == IF Tier = "quick" THEN { S \in OneFieldQ : S.fields[1].idx = 0 \/ S.fields[1].ty \in {"u8", "e2", "cu"} } \cup { S \in ThreeFieldsQ : S.shape = "named" } \cup Misc \cup EnumsQ \cup OptSpell \cup Borrowing
-          ELSE OneFieldQ \cup ThreeFieldsQ \cup Misc \cup EnumsQ \cup OptSpell \cup Borrowing
+Family == IF Tier = "quick" THEN { S \in OneFieldQ : S.fields[1].idx = 0 \/ S.fields[1].ty \in {"u8", "e2", "cu"} } \cup { S \in ThreeFieldsQ : S.shape = "named" } \cup Misc \cup EnumsQ \cup EnumsSame \cup OptSpell \cup Borrowing
+          ELSE OneFieldQ \cup ThreeFieldsQ \cup Misc \cup EnumsQ \cup EnumsSame \cup OptSpell \cup Borrowing
 
 \* ---- compatible changes (reader schemas derived from a writer schema) ----
 SetField(S, i, f) == [S EXCEPT !.fields[i] = f]
@@ -88,7 +91,8 @@ Readers(S) == { DropField(S, i) : i \in { j \in 1..Len(S.fields) : S.fields[j].o
               \cup { AddField(S, F(n, TRUE, t, ty)) : n \in FreeIdx(S), t \in {-1, 7}, ty \in (IF Tier = "quick" THEN {"u8"} ELSE {"u8", "str"}) }
 \* nested enums used as optional fields: the writer knows more variants / has turned a unit variant into a struct variant
 HostTys == {"e2", "e2x", "e2u", "io", "iox", "e2m", "e2mu", "e2a", "e2au"}
-EnumHosts == { Struct(e, -1, "named", <<F(0, FALSE, -1, "u8"), F(1, TRUE, -1, ty), F(2, TRUE, -1, "u8")>>) : e \in Encs, ty \in HostTys }
+\* (the optional enum field in every spelling: Option<E>, Box<Option<E>>, a type alias, a type parameter)
+EnumHosts == { Struct(e, -1, "named", <<F(0, FALSE, -1, "u8"), Fo(1, -1, ty, sp), F(2, TRUE, -1, "u8")>>) : e \in Encs, ty \in HostTys, sp \in {"plain", "boxed", "alias", "generic"} }
 CompatTy(a, b) == a = b \/ {a, b} \in {{"e2", "e2x"}, {"e2", "e2u"}, {"io", "iox"}, {"e2m", "e2mu"}, {"e2a", "e2au"}}
 HostReaders(S) == { SetField(S, 2, [S.fields[2] EXCEPT !.ty = ty]) : ty \in { t \in HostTys : CompatTy(t, S.fields[2].ty) } }
 PairWriters == IF Tier = "quick" THEN { S \in ThreeFieldsQ : S.shape = "named" /\ S.fields[3].idx \in {2, 5} } \cup EnumHosts ELSE ThreeFieldsQ \cup EnumHosts
@@ -111,6 +115,12 @@ Emit == /\ (ph' = "done") =>
              /\ (wsch'.kind = "struct" /\ ~wsch'.transparent) =>
                    /\ Case("dec", [schema |-> wsch', bytes |-> WiderTop(wsch', b), rel |-> "wider"], DecExp(wsch', wsch', wv', WiderTop(wsch', b)))
                    /\ Case("dec", [schema |-> wsch', bytes |-> IndefTop(wsch', b), rel |-> "indef"], DecExp(wsch', wsch', wv', IndefTop(wsch', b)))
+        \* C09: every array and map of the encoding (at every level, nested types and enum bodies included) as an indefinite-length
+        \* container, and every head one width step wider than necessary: the same value, consumed exactly
+        /\ (ph' = "done") =>
+             LET b == DocEnc(wsch', wv')  bi == DocEncP(wsch', wv', IndefPt)  bw == EncFramed(Tree(b), "wide") IN
+             /\ (bi # b) => Case("dec", [schema |-> wsch', bytes |-> bi, rel |-> "indefall"], DecExp(wsch', wsch', wv', bi))
+             /\ (bw # b) => Case("dec", [schema |-> wsch', bytes |-> bw, rel |-> "wideall"], DecExp(wsch', wsch', wv', bw))
         \* C09: a wrong or missing tag anywhere in the encoding is an error, never a value
         /\ (ph' = "done") =>
              \A pt \in Perturbations(wsch', wv') :
